@@ -223,7 +223,7 @@ def run(gen, gen_path, externs, extra_flags=(), timeout=1500, verify_fn=None, ex
         for fi in gen.functions:
             if fnk and ('%s:%s' % (fi['file'], fi['path'])) == fnk.split('#')[0] and fi.get('explicit_tags'):
                 kt = {}   # a function with explicit tags keeps them for unmarked failures
-        if kind in kt:
+        if kind in kt and not f.markers:
             tg = set(kt[kind].split())
         f.tags = tg
         cl = ''
